@@ -418,8 +418,10 @@ func ipv4AddrsDecoder(r io.Reader, val interface{}, _ *[8]byte,
 			if err != nil {
 				return err
 			}
+			// Copy the address bytes: the read buffer is reused
+			// for the next entry.
 			addrs = append(addrs, &net.TCPAddr{
-				IP:   ip[:],
+				IP:   append(net.IP(nil), ip[:]...),
 				Port: int(binary.BigEndian.Uint16(port[:])),
 			})
 		}
@@ -498,8 +500,10 @@ func ipv6AddrsDecoder(r io.Reader, val interface{}, _ *[8]byte,
 			if err != nil {
 				return err
 			}
+			// Copy the address bytes: the read buffer is reused
+			// for the next entry.
 			addrs = append(addrs, &net.TCPAddr{
-				IP:   ip[:],
+				IP:   append(net.IP(nil), ip[:]...),
 				Port: int(binary.BigEndian.Uint16(port[:])),
 			})
 		}
